@@ -46,6 +46,7 @@ type Input struct {
 	AfterStop int      `json:"after_stop"` // Upload calls made after Stop (latency only)
 	Procs     int      `json:"procs"`
 	JobSeed   int64    `json:"job_seed"`
+	PreCreate bool     `json:"pre_create"` // direct: the series is ingested into once before the uploader starts
 }
 
 // ---------- recording logger (agent.Logger) ----------
@@ -465,11 +466,10 @@ func runDirect(in Input, jobs []*jobDesc) (res lib.Result) {
 	}
 	defer st.Close()
 
-	// The series is created by the harness before the uploader starts (a render that overlaps the FIRST ingest of a
-	// series can replace its freshly created dimension/segment by an empty one: cache.Get's miss path is not atomic —
-	// reported separately under C08; it is not what C20 is about).
+	// In half of the runs the series exists before the uploader starts; in the other half the harness's renders overlap
+	// the FIRST ingest of the series (the pattern that lost acknowledged ingests before /repo 39795c3, see C08).
 	key, _ := storage.ParseKey("directapp.cpu{}")
-	{
+	if in.PreCreate {
 		t := tree.New()
 		t.Insert([]byte("pre"), 1)
 		if err := st.Put(&storage.PutInput{StartTime: time.Unix(1500000100, 0), EndTime: time.Unix(1500000110, 0), Key: key, Val: t,
@@ -699,6 +699,7 @@ func gen(r *rand.Rand, idx int, tier string) Input {
 		in.Threads = 1
 		in.Token, in.Path = "", ""
 		in.Paced = lib.Chance(r, 0.6)
+		in.PreCreate = lib.Chance(r, 0.5)
 		if lib.Chance(r, 0.5) {
 			in.Burst = lib.Range(r, 95, 140)
 		} else {
